@@ -21,12 +21,13 @@ type Ctx struct {
 	P    *ana.Prog // the hub module (x/..., app/...)
 	Tier string
 
-	Overlay map[string][]byte
-	Dead    map[string]bool // helpers inlined everywhere by package norm (left out of every loaded program)
-	Fold    *FoldSet        // registered helpers (see roles.go)
-	Sub     *SubCache       // reports of included properties, shared along include chains
-	conn    map[string]*ana.Prog
-	roots   *Roots
+	Overlay     map[string][]byte
+	Dead        map[string]bool // helpers inlined everywhere by package norm (left out of every loaded program)
+	Fold        *FoldSet        // registered helpers (see roles.go)
+	Sub         *SubCache       // reports of included properties, shared along include chains
+	conn        map[string]*ana.Prog
+	hashLayouts map[string][]string // C14: byte layout of a claim hash -> event types using it
+	roots       *Roots
 }
 
 // Roots are the entry-point sets of the module.
